@@ -22,8 +22,14 @@ class RunnerError(RuntimeError):
     pass
 
 
+_PARENT_PID = os.getpid()
+
+
 def _run_chunk(args):
     lo, cases = args
+    if os.getpid() != _PARENT_PID:
+        from . import env as _env
+        _env.CACHE_READONLY = True
     out = []
     for c in cases:
         try:
@@ -61,11 +67,26 @@ def run_cases(fn, cases, warm_cases=(), procs=None, chunk=None, stall=240, group
     if n == 0:
         return []
     procs = procs or min(16, os.cpu_count() or 1)
-    for c in warm_cases:
-        try:
-            fn(c)
-        except Exception:
-            pass
+    warm_cases = list(warm_cases)
+    if warm_cases:
+        # canary: the warm-up runs library code in *this* process; try it in a forked child first so that a crash
+        # in nopython code (e.g. an out-of-bounds write) is an outcome of those cases, not the death of the check
+        ctx0 = mp.get_context("fork")
+        with ProcessPoolExecutor(max_workers=1, mp_context=ctx0) as ex0:
+            try:
+                ex0.submit(_run_chunk, (0, warm_cases)).result(timeout=stall)
+                canary_ok = True
+            except BrokenProcessPool:
+                canary_ok = False
+        if canary_ok:
+            for c in warm_cases:
+                try:
+                    fn(c)
+                except Exception:
+                    pass
+        else:
+            cases = warm_cases + cases      # the culprit is isolated by the normal crash handling below
+            n = len(cases)
     if procs == 1:
         return _run_chunk((0, cases))[1]
     try:
@@ -130,12 +151,17 @@ def _run_jobs(jobs, n, procs, stall):
     except BaseException:
         ex.shutdown(wait=False, cancel_futures=True)
         raise
-    for lo, cs in failed:   # isolate the culprit(s)
+    n_abort = 0
+    for lo, cs in failed:   # isolate the culprit(s); a few are enough to report
         for k, c in enumerate(cs):
+            if n_abort >= 3:
+                results[lo + k] = {"skipped_after_aborts": True, "case": c}
+                continue
             with ProcessPoolExecutor(max_workers=1, mp_context=ctx) as ex1:
                 try:
                     _, out = ex1.submit(_run_chunk, (0, [c])).result(timeout=stall)
                     results[lo + k] = out[0]
                 except BrokenProcessPool:
                     results[lo + k] = {"abort": True, "case": c}
+                    n_abort += 1
     return results
